@@ -113,6 +113,7 @@ pub struct Run {
     pub exhaustive: bool,
     pub notes: Vec<String>,
     pub lines: u64,
+    finished: bool,
 }
 impl Run {
     pub fn new(dir: &str) -> Self {
@@ -121,7 +122,7 @@ impl Run {
         Run {
             ops: f("ops.txt"), imp: f("impl.txt"), dir: dir.to_string(),
             evaluations: 0, spec_checked: 0, nontrivial: Default::default(), distribution: BTreeMap::new(),
-            samples: vec![], failures: vec![], failure_count: 0, rule: String::new(), exhaustive: false, notes: vec![], lines: 0,
+            samples: vec![], failures: vec![], failure_count: 0, rule: String::new(), exhaustive: false, notes: vec![], lines: 0, finished: false,
         }
     }
     /// one correspondence line: the operation sent to the model and the implementation's answer
@@ -173,6 +174,20 @@ impl Run {
             self.failures.iter().map(|f| format!("{{\"class\": {}, \"input\": {}, \"expected\": {}, \"got\": {}}}",
                 json_str(&f.class), json_str(&f.input), json_str(&f.expected), json_str(&f.got))).collect::<Vec<_>>().join(", "));
         std::fs::write(format!("{}/stats.json", self.dir), s).expect("stats");
+        self.finished = true;
+    }
+}
+/// a harness that dies on an uncaught panic (an abort inside the implementation that no section
+/// expected) still leaves the oracle failures it had recorded so far in `crash.json`
+impl Drop for Run {
+    fn drop(&mut self) {
+        if self.finished {
+            return;
+        }
+        let s = format!("{{\"failure_count\": {}, \"lines\": {}, \"spec_failures\": [{}]}}", self.failure_count, self.lines,
+            self.failures.iter().map(|f| format!("{{\"class\": {}, \"input\": {}, \"expected\": {}, \"got\": {}}}",
+                json_str(&f.class), json_str(&f.input), json_str(&f.expected), json_str(&f.got))).collect::<Vec<_>>().join(", "));
+        let _ = std::fs::write(format!("{}/crash.json", self.dir), s);
     }
 }
 
